@@ -45,6 +45,8 @@ def run(chk):
         bcfg = {"kind": bkind, "n_basis_modes": m}
         ocfg = opt_configs(rng, n, m)[int(rng.integers(0, 6))]
         s1, s2 = int(rng.integers(0, 10 ** 6)), int(rng.integers(0, 10 ** 6))
+        if rng.random() < 0.3:
+            s1 = 0                                   # seed 0 is a seed like any other
         nsens = None if rng.random() < 0.4 else int(rng.integers(1, n + 1))      # the requested count (also below n_basis_modes) must not matter
         case = {"X": X.tolist(), "matrix_kind": kind, "basis": bcfg, "opt": ocfg, "seeds": [s1, s2], "n_sensors": nsens}
         try:
